@@ -793,7 +793,7 @@ pub fn c01(ctx: &mut Ctx) {
     ctx.level = "fault_enumeration".into();
     ctx.rule = "storage programs (insert, insert_at, replace, resize, move_at incl. zero size, remove, optimize) grouped into arbitrarily nested explicit transactions (depth <=3), ending in a clean close or a drop with unfinished transactions, on FileStorage and FileStorageMemoryMapped. A hook fires before every mutating file-system call of the data file and the recovery log; at each such event the engine copies both files (the crash image), recovers the image with the real open path and compares every live record, every dead index and the file length with the reference state of the last outermost commit before that event (commit point = the event that truncates the log); recovery is repeated (idempotence, empty log); for log appends the log is additionally cut inside the record being appended (torn images); thorough also crashes during recovery itself. Quick: all events for programs with <=80 events, else a stratified sample. evaluations = images recovered. Non-trivial: the image has a non-empty recovery log (recovery has work to do). Distinct = hash of the image bytes.".into();
     let thorough = ctx.tier == Tier::Thorough;
-    let cases = ctx.tier.pick(1500, 12_000);
+    let cases = ctx.tier.pick(1500, 8_000);
     let max_ops = ctx.tier.pick(14usize, 40usize);
     replay_saved::<CrashProgram, _>(ctx, "c01-crash", |c| c01_case_with(c, true, true));
     run_campaign(
